@@ -74,7 +74,7 @@ func stdInvalidLength(offset, length, sliceLength int) bool
 //
 //verif:opt maxpaths=20000 reach=both-accept,both-reject thorough.wall=1200
 func Harness_C10_tagAndLength() {
-	n := 1 + vChoice("len", 7)
+	n := 1 + vChoice("len", 7+2*vTier())
 	b := vBytes("der", n)
 	off := vChoice("off", n)
 	f, fo, fe := parseTagAndLength(b, off, "")
